@@ -131,6 +131,16 @@ def module_states(name, tier, nseeds=None, with_short=True, with_synth=True):
                 transitions += 1
                 if x not in states:
                     states[x] = (1, 'synth:gs1', '')
+        lv = synth.length_variants(name, m, sv)
+        st4, tr4 = explore(lv[:4 if quick else 20], alpha, bound=1, whole=False)
+        transitions += tr4
+        for k, val in st4.items():
+            if k not in states:
+                states[k] = (val[0] + 1, ('synth:length+' + val[1]) if val[1] else 'synth:length', val[2])
+        for x in lv:
+            transitions += 1
+            if x not in states:
+                states[x] = (1, 'synth:length', '')
         for x in synth.run_numbers(name, m, sv):
             transitions += 1
             if x not in states:
